@@ -217,7 +217,7 @@ def run_sharded(pid, cases, timeout_s, extra_args=()):
         with open(fin, 'w') as f:
             json.dump(enc(shard), f)
         p = subprocess.Popen([sys.executable, '-X', 'faulthandler', '-m', 'vmon', 'worker', pid, fin, fout] + list(extra_args),
-                             cwd=VERIF, env=child_env(), stdout=subprocess.PIPE, stderr=subprocess.PIPE)
+                             cwd=VERIF, env=dict(child_env(), VERIF_SHARD=str(i)), stdout=subprocess.PIPE, stderr=subprocess.PIPE)
         procs.append((p, fin, fout, i))
     dumps, problems = [], []
     deadline = time.time() + timeout_s
